@@ -104,7 +104,8 @@ Section Tree.
 
   (* ---------------- positions in order ---------------- *)
 
-  Definition pos : Type := nat * Z * (K * V).
+  (* a position: node id, index in the node, the entry stored there *)
+  Notation pos := (nat * Z * (K * V))%type.
   Definition p_id (p : pos) : nat := fst (fst p).
   Definition p_i (p : pos) : Z := snd (fst p).
   Definition p_kv (p : pos) : K * V := snd p.
